@@ -737,6 +737,9 @@ class Emitter:
         first = s.idx(idx0, fn)
         if first is None: acc = '(*%s)' % expr
         else: acc = '%s[%s]' % (expr, first)
+        if len(ops) == 2 and first is not None and idx0.kind != 'int' and getattr(s.opts, 'null_gep_ok', False):
+            # --null-gep-ok: `p + i` with a variable i is defined for a null p when i == 0 (C++ [expr.add], LLVM gep); C checkers flag NULL + 0
+            return '(%s ? ((char*)&%s) : (char*)%s)' % (first, acc, base)
         for o in ops[2:]:
             if isinstance(cur, StructTy):
                 k = o.data
@@ -896,6 +899,21 @@ class FnEmit:
         if n in getattr(s, 'inl', ()): return s.inl[n]
         if s.thread and n not in getattr(s, 'blocklocal', ()): return 'F->v_' + cid(n)
         return 'v_' + cid(n)
+    def gep_multidim_symbolic(s, I):
+        """address of an element of an array-of-arrays with a non-constant index.  CBMC 6.11 mis-simplifies `*&a[c][i]` for
+        multi-dimensional arrays when the address-of and the dereference are in one expression (reads a wrong value:
+        `uint8_t g[3][2]; *&g[1][j]` with g all zero yields 2), while `p = &a[c][i]; *p` is handled correctly - so such
+        addresses are never rendered inline at their use."""
+        t = I.bt; arrays = 0; sym = I.ops[1].kind != 'int'
+        for o in I.ops[2:]:
+            if isinstance(t, StructTy):
+                t = t.fields[o.data]; arrays = 0 if arrays < 2 else arrays
+            elif isinstance(t, ArrTy):
+                arrays += 1
+                if o.kind != 'int': sym = True
+                t = t.el
+            else: break
+        return arrays >= 2 and sym
     def cs_kind(s, I):
         """None, 'pre' (context-switch point before the instruction) or 'mid' (two-phase blocking call: split inside)"""
         if not s.thread: return None
@@ -960,6 +978,7 @@ class FnEmit:
             pure = (I.op == 'bin' and I.bop not in ('udiv', 'sdiv', 'urem', 'srem') and not isinstance(I.ty, FloatTy)) or \
                    I.op in ('icmp', 'cast', 'gep') or (I.op == 'select')
             if not pure or r not in s.blocklocal: continue
+            if I.op == 'gep' and s.gep_multidim_symbolic(I): continue
             ub = uses.get(r, [])
             if not ub: continue
             if len(ub) > 1 and I.op not in ('gep', 'cast'): continue
@@ -1327,6 +1346,7 @@ def main():
     ap.add_argument('--asm', action='append', default=[], help='asmstring=hook')
     ap.add_argument('--list', action='store_true')
     ap.add_argument('--no-inline-expr', dest='no_inline_expr', action='store_true')
+    ap.add_argument('--null-gep-ok', dest='null_gep_ok', action='store_true', help='emit single-index geps with a variable index as (i ? &p[i] : p): null + 0 is not an error')
     o = ap.parse_args()
     o.asm = dict(x.rsplit('=', 1) for x in o.asm)
     o.blockingc = [x.rsplit('=', 1) for x in o.blockingc]
